@@ -396,6 +396,9 @@ def run(tier, seed):
         seeds = [astu.src(a) for n in astu.walk(gg['body']) if n['k'] == 'New' for a in n.get('args', [])]
     rep.add('FORWARD', 'engine:seed', where(gg), 'the random engine is constructed from config.seed (%s)' % seeds, seeds == ['config.seed'])
     rep.floor('VALIDATION', ndead, 4)
+    # a configuration comparison (used to skip re-instantiation) must look at every field
+    from ..rules import typestate as _ts
+    _ts.equality_complete(rep, g4, 'EQUALITY.complete')
     return rep
 
 
